@@ -866,6 +866,7 @@ impl<'a> World<'a> {
                     (sel_c + 1 + (r as usize % (len - 1))) % len
                 }
             }
+            Idx::Top(k) => len - 1 - (k as usize).min(len - 1),
         };
         Some((i, sel_c, len))
     }
